@@ -40,8 +40,11 @@ func init() {
 			"transactions; a shorter-but-heavier branch; per batch one tree of 135-170 main blocks so the 128-trie garbage collector runs) built by core.GenerateChain, imported by 6 replicas " +
 			"(batch / single+archive / shuffled+flush-always / shuffled+restarts+pruning / shuffled+restarts+archive / RLP round trip+re-sent known blocks); " +
 			"a tree is non-trivial when it has a successful creation, a failed transaction, an uncle, a fork and crosses the HF4/HF5 heights; distinct = hash of the tree's block hashes. " +
-			"leg corrupt: for PRNG-chosen held-out blocks of such trees every corruption kind (6 header commitments incl. plausible wrong values, 7 body edits, 5 body edits with re-computed commitment) " +
-			"x offer mode (tip / inside a batch / side fork / behind known blocks) x archive|pruning-after-restart; distinct = (tree, block, kind, mode). " +
+			"leg corrupt: per tree a held-out chain of 6 builder blocks (>=4 transactions incl. a LOG, uncles on odd blocks); every corruption kind " +
+			"(10 header-commitment corruptions over TxHash, UncleHash, Root, ReceiptHash, Bloom, GasUsed incl. plausible wrong values; 7 body edits with the header untouched; " +
+			"5 body edits with the tx root / uncle hash re-computed) x offer mode (tip / behind known blocks / inside a batch with a twin node as reference / side fork / " +
+			"side fork on a pruned parent followed by re-parented children that reach the head's total difficulty) x node (archive | pruning node after a clean restart); " +
+			"distinct = (corrupted block hash, kind, mode, node). " +
 			"leg miner (see Assumptions) drives the real opt/miner worker.",
 		Legs: func(tier string) []fw.Leg {
 			// children are mostly single-threaded (one import at a time); a small
@@ -54,7 +57,7 @@ func init() {
 				{Name: "miner", Variant: "plain", Batches: 2, Timeout: 45 * time.Minute, Env: env},
 			}
 			if tier == "thorough" {
-				legs = append(legs, fw.Leg{Name: "replica-race", Variant: "race", Batches: 8, Timeout: 90 * time.Minute, Env: env})
+				legs = append(legs, fw.Leg{Name: "replica-race", Variant: "race", Batches: 8, Timeout: 150 * time.Minute, Env: env})
 			}
 			return legs
 		},
@@ -82,6 +85,9 @@ func init() {
 				"corrupt_mode:midbatch":                   40,
 				"corrupt_mode:sidefork":                   40,
 				"corrupt_mode:after_known":                20,
+				"corrupt_mode:deferred_sidefork":          20,
+				"deferred_sidefork_claims_held_root":      10,
+				"untouched_compared":                      300,
 				"control_valid_sibling_accepted":          20,
 				"mined_blocks_reimported":                 6,
 			}
